@@ -11,6 +11,8 @@ import threading
 import time
 
 VERIF = os.path.dirname(os.path.dirname(os.path.abspath(__file__)))
+# selftest runs redirect evidence/replays to a scratch directory
+OUT = os.environ.get('FBVERIF_OUT') or VERIF
 PY = sys.executable or '/venv/bin/python'
 NCPU = min(16, os.cpu_count() or 4)
 
@@ -121,7 +123,7 @@ def run_check(prop, tier=None, seed=None):
     cfg = mod.CONFIG
     budget = cfg['budget'][tier]
     nsh = cfg.get('shards', {}).get(tier, NCPU)
-    outdir = os.path.join(VERIF, 'evidence', '.shards', prop)
+    outdir = os.path.join(OUT, 'evidence', '.shards', prop)
     os.makedirs(outdir, exist_ok=True)
     for fn in os.listdir(outdir):
         os.remove(os.path.join(outdir, fn))
@@ -199,7 +201,7 @@ def run_check(prop, tier=None, seed=None):
         else:
             unlisted.append(v)
     lines = []
-    rdir = os.path.join(VERIF, 'replays', prop)
+    rdir = os.path.join(OUT, 'replays', prop)
     if os.path.isdir(rdir):
         for fn in os.listdir(rdir):
             if fn.startswith('viol_'):
@@ -242,8 +244,8 @@ def run_check(prop, tier=None, seed=None):
     }
     if cfg.get('exhaustive_layer'):
         ev['coverage']['exhaustive_layer'] = cfg['exhaustive_layer']
-    os.makedirs(os.path.join(VERIF, 'evidence'), exist_ok=True)
-    with open(os.path.join(VERIF, 'evidence', prop + '.json'), 'w') as f:
+    os.makedirs(os.path.join(OUT, 'evidence'), exist_ok=True)
+    with open(os.path.join(OUT, 'evidence', prop + '.json'), 'w') as f:
         json.dump(ev, f, indent=1, default=repr)
     for ln in lines:
         print(ln)
